@@ -60,15 +60,22 @@ func (r Req) key() string {
 // Case is one single-request case printed by TLC (HttpGateMC EmitInv).
 type Case struct {
 	Req
-	W     bool     `json:"w"`
-	Stack string   `json:"stack"`
-	UI    bool     `json:"ui"`
-	Raw   []string `json:"raw,omitempty"`
-	Dec   []string `json:"dec,omitempty"`
-	Exp   []Resp   `json:"exp,omitempty"`
+	W     bool   `json:"w"`
+	Stack string `json:"stack"`
+	UI    bool   `json:"ui"`
+	// supply path: "direct" = kprapi gets the harness' own Config; else the keyper flavour whose real
+	// constructor and Config the server is obtained through, Cfg = what the operator wrote for
+	// HTTPReadOnly ("unset" | "true" | "false") and W = what that means (judged setting)
+	Flavour string   `json:"flavour"`
+	Cfg     string   `json:"cfg"`
+	Raw     []string `json:"raw,omitempty"`
+	Dec     []string `json:"dec,omitempty"`
+	Exp     []Resp   `json:"exp,omitempty"`
 }
 
-func (c Case) key() string { return fmt.Sprintf("%s|%v|%s|%v", c.Req.key(), c.W, c.Stack, c.UI) }
+func (c Case) key() string {
+	return fmt.Sprintf("%s|%v|%s|%v|%s|%s", c.Req.key(), c.W, c.Stack, c.UI, c.Flavour, c.Cfg)
+}
 
 // Multi is a history (HttpGateHist HEmitInv) or a concurrent pair (HttpGateConc CEmitInv).
 type Multi struct {
@@ -87,10 +94,12 @@ func (m Multi) key() string {
 
 // CaseLine, HistLine, ConcLine are the three kinds of trace line (HttpGateTrace).
 type CaseLine struct {
-	K     string `json:"k"`
-	Stack string `json:"stack"`
-	UI    bool   `json:"ui"`
-	W     bool   `json:"w"`
+	K       string `json:"k"`
+	Stack   string `json:"stack"`
+	UI      bool   `json:"ui"`
+	Flavour string `json:"flavour"`
+	Cfg     string `json:"cfg"`
+	W       bool   `json:"w"`
 	Req
 	Obs []Obs `json:"obs"`
 	// lines from a construction-order child process: the settings of the servers built in that
@@ -131,6 +140,7 @@ type ConcLine struct {
 type plan struct {
 	stacks     []string // handler stacks of the single-request domain
 	uiModes    []bool   // server modes: SWAGGER_UI unset / set when the server is built
+	flavours   bool     // supply path: servers obtained through the keyper flavours' constructors
 	buildDepth int      // construction orders of that many servers, each in a fresh child process
 	maxSpell   int      // length of spelling sequences
 	reps       int      // how often each request is sent (each time to another server instance)
@@ -153,18 +163,18 @@ var bothBools = []bool{false, true}
 func plansFor(thorough bool) []plan {
 	if thorough {
 		return []plan{
-			{stacks: bothStacks, uiModes: bothBools, buildDepth: 3, maxSpell: 2, reps: 3, hdr: true,
+			{stacks: bothStacks, uiModes: bothBools, flavours: true, buildDepth: 3, maxSpell: 2, reps: 3, hdr: true,
 				histDepth: 2, histSpellings: []string{"exact", "encodedLetter", "trailingSlash", "query"}, histStacks: bothStacks,
 				concW: []bool{false, true}, concAll: true, concStacks: bothStacks, concDur: 3 * time.Second},
 			{stacks: []string{"server"}, uiModes: []bool{true}, maxSpell: 3, reps: 3, hdr: true,
 				histDepth: 3, histSpellings: []string{"exact"}, histStacks: []string{"gate"}},
-			{stacks: bothStacks, uiModes: bothBools, buildDepth: 2, maxSpell: 2, reps: 5, hdr: true,
+			{stacks: bothStacks, uiModes: bothBools, flavours: true, buildDepth: 2, maxSpell: 2, reps: 5, hdr: true,
 				histDepth: 2, histSpellings: []string{"exact"}, histHdr: true, histStacks: bothStacks,
 				concW: []bool{false}, concStacks: bothStacks, concDur: 5 * time.Second},
 		}
 	}
 	return []plan{
-		{stacks: bothStacks, uiModes: bothBools, buildDepth: 2, maxSpell: 1, reps: 2, hdr: true,
+		{stacks: bothStacks, uiModes: bothBools, flavours: true, buildDepth: 2, maxSpell: 1, reps: 2, hdr: true,
 			histDepth: 2, histSpellings: []string{"exact"}, histStacks: bothStacks,
 			concW: []bool{false}, concStacks: bothStacks, concDur: 1500 * time.Millisecond},
 		{stacks: []string{"server"}, uiModes: []bool{true}, maxSpell: 2, reps: 2},
@@ -325,7 +335,7 @@ func Generate(c *core.Ctx, u *Universe, p plan) (*Gen, error) {
 }
 
 func genCases(c *core.Ctx, u *Universe, p plan, g *Gen) error {
-	res, err := runMC(c, u, "HttpGateMC", ConstCfg(Methods, Spellings, p.maxSpell, p.hdr, p.stacks, p.uiModes)+
+	res, err := runMC(c, u, "HttpGateMC", ConstCfg(Methods, Spellings, p.maxSpell, p.hdr, p.stacks, p.uiModes)+"  FlavourCross = "+tlaBool(p.flavours)+"\n"+
 		"SPECIFICATION Spec\nINVARIANT GateInv\nINVARIANT LiveInv\nINVARIANT DetInv\nINVARIANT AgreeInv\nINVARIANT EmitInv\nCHECK_DEADLOCK FALSE\n", g)
 	if err != nil {
 		return err
@@ -475,10 +485,10 @@ func runCases(cases []Case, body string, reps, workers int) ([]CaseLine, int, er
 					}
 				}
 			}()
-			get := func(write bool, stack string, ui bool, r int) (*Gate, error) {
-				k := fmt.Sprintf("%v|%s|%v", write, stack, ui)
+			get := func(cs Case, r int) (*Gate, error) {
+				k := gateKey(cs)
 				for len(gates[k]) <= r {
-					g, err := NewGate(write, stack, ui)
+					g, err := newGateFor(cs)
 					if err != nil {
 						return nil, err
 					}
@@ -495,9 +505,12 @@ func runCases(cases []Case, body string, reps, workers int) ([]CaseLine, int, er
 				if cs.Stack == "" {
 					cs.Stack = "server"
 				}
-				ln := CaseLine{K: "case", Stack: cs.Stack, UI: cs.UI, W: cs.W, Req: cs.Req, Obs: []Obs{}}
+				if cs.Flavour == "" {
+					cs.Flavour, cs.Cfg = "direct", "-"
+				}
+				ln := CaseLine{K: "case", Stack: cs.Stack, UI: cs.UI, Flavour: cs.Flavour, Cfg: cs.Cfg, W: cs.W, Req: cs.Req, Obs: []Obs{}}
 				for r := 0; r < reps; r++ {
-					g, err := get(cs.W, cs.Stack, cs.UI, r)
+					g, err := get(cs, r)
 					if err != nil {
 						eb.set(err)
 						return
@@ -511,8 +524,8 @@ func runCases(cases []Case, body string, reps, workers int) ([]CaseLine, int, er
 					ln.Obs = append(ln.Obs, ob)
 					if ob.Panic == "hang" {
 						// the handler of that server is still blocked: use a new one
-						if g2, err := NewGate(cs.W, cs.Stack, cs.UI); err == nil {
-							gates[fmt.Sprintf("%v|%s|%v", cs.W, cs.Stack, cs.UI)][r] = g2
+						if g2, err := newGateFor(cs); err == nil {
+							gates[gateKey(cs)][r] = g2
 						}
 					}
 				}
@@ -901,6 +914,9 @@ func describe(f Finding) string {
 		if l.UI {
 			mode = ", SWAGGER_UI set"
 		}
+		if l.Flavour != "direct" && l.Flavour != "" {
+			mode += fmt.Sprintf(", obtained through the %s keyper's constructor from its Config with HTTPEnabled = true and HTTPReadOnly %s (the operator configured write operations %s)", l.Flavour, l.Cfg, onOff(l.W))
+		}
 		return fmt.Sprintf("monitor %s failed: %s on the %s stack%s with write operations %s (template %s, spelling %v; the instances had served other cases before) observed %s",
 			f.Monitor, rq(l.Req), l.Stack, mode, onOff(l.W), l.T, l.Sps, ob)
 	}
@@ -1071,7 +1087,7 @@ func writeEvidence(c *core.Ctx, plans []plan, outs []*Outcome, violations int, s
 			"cases": len(o.Gen.Cases), "histories": len(o.Gen.Hists), "concurrent_pairs": len(o.Gen.Concs), "lines_and_requests_by_kind": o.Kinds,
 			"requests": o.Requests, "deciding_stage_histogram": o.Stages, "observed_effect_histogram": o.Effects,
 			"param_values": o.Gen.U.ParamVal, "templates": len(o.Gen.U.Templates), "replay_s": o.ReplayS, "validate_s": o.ValidateS,
-			"stacks": p.stacks, "server_modes_swagger_ui": p.uiModes, "construction_order_depth": p.buildDepth, "construction_orders": len(o.Gen.Procs), "max_spelling_sequence": p.maxSpell, "repetitions": p.reps, "header_classes_crossed": p.hdr,
+			"stacks": p.stacks, "supply_path_flavours": p.flavours, "server_modes_swagger_ui": p.uiModes, "construction_order_depth": p.buildDepth, "construction_orders": len(o.Gen.Procs), "max_spelling_sequence": p.maxSpell, "repetitions": p.reps, "header_classes_crossed": p.hdr,
 			"history_depth": p.histDepth, "history_spellings": p.histSpellings, "history_stacks": p.histStacks,
 			"concurrency_settings": p.concW, "concurrency_all_pairs": p.concAll, "concurrency_stacks": p.concStacks, "concurrency_ms_per_pair": p.concDur.Milliseconds(),
 		})
@@ -1168,7 +1184,7 @@ func Replay(c *core.Ctx) int {
 			line = ls[l.Inst-1]
 			break
 		}
-		ls, _, err := runCases([]Case{{Req: l.Req, W: l.W, Stack: l.Stack, UI: l.UI}}, rf.Universe.Body, rf.Reps, 1)
+		ls, _, err := runCases([]Case{{Req: l.Req, W: l.W, Stack: l.Stack, UI: l.UI, Flavour: l.Flavour, Cfg: l.Cfg}}, rf.Universe.Body, rf.Reps, 1)
 		if err != nil {
 			fmt.Println("INCONCLUSIVE:", err)
 			return core.ExitInconclusive
@@ -1233,7 +1249,7 @@ func childMain() int {
 				fmt.Fprintln(os.Stderr, err)
 				return core.ExitInconclusive
 			}
-			enc.Encode(CaseLine{K: "case", Stack: "server", W: job.Order[i], Req: r, Obs: []Obs{ob}, Order: job.Order, Inst: i + 1})
+			enc.Encode(CaseLine{K: "case", Stack: "server", Flavour: "direct", Cfg: "-", W: job.Order[i], Req: r, Obs: []Obs{ob}, Order: job.Order, Inst: i + 1})
 			if ob.Panic == "hang" {
 				return core.ExitOK
 			}
@@ -1290,4 +1306,15 @@ func runProcs(procs []ProcOrder, body string) ([]CaseLine, int, error) {
 		out = append(out, r...)
 	}
 	return out, len(out), eb.err
+}
+
+func gateKey(cs Case) string {
+	return fmt.Sprintf("%v|%s|%v|%s|%s", cs.W, cs.Stack, cs.UI, cs.Flavour, cs.Cfg)
+}
+
+func newGateFor(cs Case) (*Gate, error) {
+	if cs.Flavour != "" && cs.Flavour != "direct" {
+		return NewFlavourGate(cs.Flavour, cs.Cfg)
+	}
+	return NewGate(cs.W, cs.Stack, cs.UI)
 }
